@@ -15,6 +15,30 @@ import (
 	"verifharness/lib"
 )
 
+// provideCandidates lists what a target may name in its provides. While the finding
+// C05-chained-provides-not-built is listed (a provided target that itself provides something for the same
+// requirer is used as build input but never scheduled, so the build fails), provided targets are never
+// providers themselves; the exclusions are counted.
+func provideCandidates(earlier, providers []string) []string {
+	if !lib.Known("C05", "chained-provides-not-built") {
+		return earlier
+	}
+	isProvider := map[string]bool{}
+	for _, p := range providers {
+		isProvider[p] = true
+	}
+	var out []string
+	for _, e := range earlier {
+		if !isProvider[e] {
+			out = append(out, e)
+		}
+	}
+	if len(out) != len(earlier) {
+		lib.Rec(spec).Excluded("chained-provides-not-built")
+	}
+	return out
+}
+
 func TestMain(m *testing.M) { lib.Main(m) }
 
 var spec = lib.Spec{
@@ -148,7 +172,9 @@ func gen(t *rapid.T) Case {
 			tg.EntryPoints = append(tg.EntryPoints, KV{k, []string{allOuts[i]}})
 		}
 		for _, k := range pick(t, []string{"lang1", "lang2", "lang3"}, 0, 3, "provkeys") {
-			tg.Provides = append(tg.Provides, KV{k, []string{rapid.SampledFrom(earlier).Draw(t, "provtarget")}})
+			if cands := provideCandidates(earlier, providers); len(cands) > 0 {
+				tg.Provides = append(tg.Provides, KV{k, []string{rapid.SampledFrom(cands).Draw(t, "provtarget")}})
+			}
 		}
 		if len(tg.Provides) > 0 {
 			providers = append(providers, tg.Label())
@@ -169,7 +195,9 @@ func gen(t *rapid.T) Case {
 	// a filegroup with provides
 	fg := Target{Pkg: rapid.SampledFrom(c.Pkgs).Draw(t, "pkg"), Name: "fg", Kind: "filegroup", Srcs: pick(t, fileNames, 1, 2, "fgsrcs")}
 	for _, k := range pick(t, []string{"lang1", "lang2", "lang3"}, 1, 3, "provkeys") {
-		fg.Provides = append(fg.Provides, KV{k, []string{rapid.SampledFrom(earlier).Draw(t, "provtarget")}})
+		if cands := provideCandidates(earlier, providers); len(cands) > 0 {
+			fg.Provides = append(fg.Provides, KV{k, []string{rapid.SampledFrom(cands).Draw(t, "provtarget")}})
+		}
 	}
 	c.Targets = append(c.Targets, fg)
 	providers = append(providers, fg.Label())
@@ -463,5 +491,5 @@ func run(c Case, o *lib.Obs) error {
 }
 
 func TestC07(t *testing.T) {
-	lib.Check(t, spec, lib.Scale(12, 400), gen, run)
+	lib.Check(t, spec, lib.Scale(12, 150), gen, run)
 }
